@@ -51,6 +51,16 @@ unsafe_builtins = {
     'display',
     'license',
     'dict',  # Constructor-based type escapes
+    'open',  # File access
+    'input',  # Reads stdin
+    'print',  # Writes to stdout or to any file object
+    'help',  # Interactive; imports pydoc
+    'eval',  # Code execution from strings (bypasses the AST checks)
+    'exec',
+    'compile',
+    'exit',  # SystemExit (and closes sys.stdin)
+    'quit',
+    'delattr',  # Attribute manipulation by name
 }
 
 
